@@ -87,7 +87,7 @@ class RecClient(C.GenericClient):
                         "retry": self.isAnErrorRetry}
                 try:
                     eq = self._GenericClient__datamodel.errorqueue
-                    call["qobjs"] = [(lev.objtype, lev.objpkey) for (rev, lev, msg) in eq._queue.values()]
+                    call["qobjs"] = [(lev.objtype, lev.objpkey, lev.eventtype) for (rev, lev, msg) in eq._queue.values()]
                 except Exception:  # noqa
                     call["qobjs"] = None
                 if name == "on_save":
